@@ -635,14 +635,16 @@ package mux
 //@ fn Group.Add
 //@   maypanic
 //@   requires g != nil && r != nil && routerOK(r) && allSafe() && (forall k int :: 0 <= k && k < len(g.routers) ==> g.routers[k] != nil) &&
-//@        (forall k int :: 0 <= k && k < len(g.ms) ==> g.ms[k] != nil)
+//@        (forall k int :: 0 <= k && k < len(g.ms) ==> g.ms[k] != nil) && len(g.matchers) == len(g.routers)
 //@   atcall mux.Router.Use [C09,C13] inherits-group-middleware: arg0 == r && arg1 == g.ms
 //@   ensures [C13] added-last: len(g.routers) == old(len(g.routers)) + 1 && g.routers[old(len(g.routers))] == r &&
 //@        (forall k int :: 0 <= k && k < old(len(g.routers)) ==> g.routers[k] == old(g.routers[k]))
 //@   ensures [C13] matcher: len(g.matchers) == old(len(g.matchers)) + 1 && g.matchers[old(len(g.matchers))] != nil && (matcher != nil ==> g.matchers[old(len(g.matchers))] == matcher) &&
 //@        (forall k int :: 0 <= k && k < old(len(g.matchers)) ==> g.matchers[k] == old(g.matchers[k]))
 //@   ensures [C13] nil-means-any: matcher == nil ==> typeis(g.matchers[old(len(g.matchers))], "MatcherFunc") && unbox(g.matchers[old(len(g.matchers))], "MatcherFunc") == funcval("mux.anyRouter")
-//@   ensures [C13,C07] router-untouched: r.tree == old(r.tree) && r.call == old(r.call)
+//@   ensures [C13,C07,C16] router-untouched: r.tree == old(r.tree) && r.call == old(r.call) && r.recoverFunc == old(r.recoverFunc) && r.cors == old(r.cors) && r.urlDomain == old(r.urlDomain)
+//@   ensures [C13] pairs: len(g.matchers) == len(g.routers)
+//@   xensures [C13] refused-leaves-no-trace: g.routers == old(g.routers) && g.matchers == old(g.matchers)
 //
 //@ fn Group.New
 //@   maypanic
